@@ -73,6 +73,11 @@ def hasDotSegment (p : Str) : Bool := (segments p).any isDotSegment
 
 def startsWith (pre s : Str) : Bool := pre.isPrefixOf s
 
+/-- `strings.Contains(s, sub)` -/
+def isInfix (sub : Str) : Str → Bool
+  | [] => sub.isEmpty
+  | c :: rest => sub.isPrefixOf (c :: rest) || isInfix sub rest
+
 def auth (p : Parts) : Str := p.authority.getD []
 def schemeOf (p : Parts) : Str := p.scheme.getD []
 def queryOf (p : Parts) : Str := p.query.getD []
@@ -115,8 +120,15 @@ def classes (isParse : Bool) (a b : Str) : List String :=
   let c13 := !isParse && (match rfcTargetInput pa pb with | some full => dotdotThenEmpty full | none => false)
   let c15 := !isParse && pa.authority.isSome && pa.path == [] && relRef && pb.path != [] && !startsWith [cSlash] pb.path &&
     (let t := removeDotSegments (cSlash :: pb.path); t == [cSlash] || startsWith [cSlash, cSlash] t ||
-      startsWith [0x25, 0x32, 0x66] pb.path || startsWith [0x25, 0x32, 0x46] pb.path)
+      startsWith [cSlash, 0x25, 0x32, 0x66] t || startsWith [cSlash, 0x25, 0x32, 0x46] t)
   let c14 := !isParse && pb.scheme.isSome && pb.authority.isNone && !startsWith [cSlash] pb.path && hasDotSegment pb.path
+  let pr := if isParse then pa else pb
+  let c16 := pr.scheme.isNone && pr.authority.isNone && (pr.path == [0x25, 0x32, 0x41] ||
+    (!isParse && pa.authority.isSome && pa.path == [] && pr.path != [] && !startsWith [cSlash] pr.path &&
+      removeDotSegments (cSlash :: pr.path) == [cSlash, 0x25, 0x32, 0x41]))
+  let seg0 := pa.path.takeWhile (· != cSlash)
+  let c17 := isParse && pa.scheme.isNone && pa.authority.isNone &&
+    (isInfix [0x25, 0x33, 0x61] seg0 || isInfix [0x25, 0x33, 0x41] seg0)
   (if c1 then ["scheme-has-uppercase"] else []) ++
   (if c2 then ["host-non-ascii"] else []) ++
   (if c3 then ["host-pct-encoded"] else []) ++
@@ -124,6 +136,8 @@ def classes (isParse : Bool) (a b : Str) : List String :=
   (if c5 then ["host-ipvfuture"] else []) ++
   (if c6 then ["empty-host"] else []) ++
   (if c7 then ["opaque-reclassified-abs-path"] else []) ++
+  (if c16 then ["relative-path-escaped-asterisk"] else []) ++
+  (if c17 then ["relative-first-segment-encoded-colon"] else []) ++
   (if c8 then ["special-scheme-no-authority-base"] else []) ++
   (if c9 then ["rootless-base-path-reference"] else []) ++
   (if c10 then ["base-dot-segments-empty-path-reference"] else []) ++
